@@ -128,7 +128,8 @@ func checkTrie(rp *reporter, idx int) {
 	case 1:
 		r.Count("tries.single_leaf", 1)
 	}
-	if idx < 20 && len(c.Items) > 1 && len(c.Items) < 8 {
+	if idx < 8 && len(c.Items) > 1 && len(c.Items) < 8 && r.Counter("samples.trie") < 2 {
+		r.Count("samples.trie", 1)
 		r.Sample(map[string]any{"kind": "trie", "case": idx, "trie": c.String(), "root": want.String(), "queried_keys": len(qs)})
 	}
 }
